@@ -58,6 +58,10 @@ def instances(tier, seed):
     sb = Spec(nx=3, nu=1, xshape=[(2, 1), (1, 1)], ode=[Pg('a') * t, Pg('a') * t, nl1(X(0)) + U(0) * X(1)], params=[Sym('a', value=2)],
               ode_broadcast={0: Pg('a') * t}, note='scalar right-hand side for a vector state')
     add(fam.with_horizon(sb, H[1]), Cfg('DC', N=2, M=2, degree=2, scheme='radau', grid=fam.G_UNI))
+    # a per-interval parameter AND a per-node (include_last) parameter inside the dynamics: each reaches the integrator in its own slot
+    spp = Spec(nx=2, nu=1, ode=[nl1(X(1)) * U(0) * Pg('pp') + t * X(0), X(0) - X(1) * Pg('pc') + Pg('pp')], params=[Sym('pc', 'control', value=3), Sym('pp', 'control+', value=Fr(1, 2))], note='control and control+ parameters in the dynamics')
+    for method, intg in (('DC', None),):
+        add(fam.with_horizon(spp, H[1]), Cfg(method, N=2, M=2, intg=intg or 'rk', grid=fam.G_UNI, degree=2, scheme='radau'))
     # a square MATRIX-valued state with a non-symmetric right-hand side
     sm = Spec(nx=5, nu=1, xshape=[(2, 2), (1, 1)], ode=[X(1) * 2 + t, X(0) - U(0), nl1(X(3)) + X(4), X(2) * X(0), X(1) - X(2)], note='2x2 matrix state, non-symmetric right-hand side')
     add(fam.with_horizon(sm, H[1]), Cfg('DC', N=2, M=1, degree=2, scheme='radau', grid=fam.G_UNI))
